@@ -105,13 +105,14 @@ fn main() {
 
     cx.set_rule(
         "complete enumeration of (entry point x length x pattern x rayon pool size). MSM: lengths ALL of 0..=70 \
-         then {127,128,129,255,256,257,1000,4095,4096} (+8104 in quick for the identity-base/random patterns; \
+         then {127,128,129,255,256,257,1000,4095,4096} (quick: +8104 with 4 patterns {random, identity-middle, opposite-pairs, equal-bases}, and 1000 / 4095 with 6 patterns; \
          thorough adds {8103,8104,8200,22027} with all patterns) x 16 scalar/base patterns x pools {1,2,3,5,8,16} \
          (quick: pools {1,2,3,16} for lengths >= 1000; entries with no rayon call on their path - msm_serial and \
-         the blst-backed ones - run under pools {1,16} only) on BLS12-381 G1, BN254 G1 and (shorter list) BLS12-381 G2; \
+         the blst-backed ones - run under pools {1,16} only, pool 1 only for lengths >= 1000 in quick) on BLS12-381 G1, \
+         BN254 G1 and BLS12-381 G2 (quick: G2 lengths 0..=36 and {127,128,129,257} under pools {1,3,16}); \
          reference (Σ sᵢbᵢ)·G with known seeded dlogs bᵢ for every length and, for lengths <= 70, ALSO the direct \
          naive sum Σ sᵢ·Pᵢ. FFT: k = 0..=10 (thorough 12) x pools x {δ0, δlast, ones, seeded} vs the O(n²) DFT \
-         with the same ω, over the scalar field and over G1 (group inputs cᵢ·G, expected (DFT c)ⱼ·G; direct \
+         with the same ω, over the scalar field and over G1 (quick: the G1 transforms of size 2^9 and 2^10 under pools {1,16} only) (group inputs cᵢ·G, expected (DFT c)ⱼ·G; direct \
          group DFT for n <= 16), inverse round trip, recursive_butterfly_arithmetic. EvaluationDomain::new(j,k) \
          j 1..=9 x k 1..=8 (thorough 10) x pools: all conversions vs Horner at ω^i / ζ·ω_ext^i, rotations -3..=3, \
          l_i_range on ranges with negative and >= n indices vs the product formula, division by X^n-1, polynomial \
@@ -145,6 +146,8 @@ fn main() {
     let patterns_for = move |n: usize| -> Option<Vec<&'static str>> {
         if !thorough && n > 4096 {
             Some(vec!["random", "identity-middle", "opposite-pairs", "equal-bases"])
+        } else if !thorough && (n == 1000 || n == 4095) {
+            Some(vec!["random", "max-scalars", "identity-middle", "equal-bases", "opposite-pairs", "repeated-zero-sum"])
         } else {
             None
         }
@@ -153,22 +156,22 @@ fn main() {
         curve,
         lengths: lens.clone(),
         pools_for: Box::new(pools_for),
-        pools_independent: vec![1, 16],
+        pools_independent_for: Box::new(move |n| if !thorough && n >= 1000 { vec![1] } else { vec![1, 16] }),
         patterns_for: Box::new(patterns_for),
     };
     msm::run_curve::<G1Affine>(&mut cx, &plan_g1("bls12-381-g1"), &bls_g1_entries());
     msm::run_curve::<bn256::G1Affine>(&mut cx, &plan_g1("bn254-g1"), &bn_g1_entries());
     // G2 (generic msm over an extension-field curve + blst's G2 Pippenger): shorter list in quick
     let mut g2_lens: Vec<usize> = (0..=if thorough { 70 } else { 36 }).collect();
-    g2_lens.extend(if thorough { big_lens.clone() } else { vec![127, 128, 129, 1000] });
+    g2_lens.extend(if thorough { big_lens.clone() } else { vec![127, 128, 129, 257] });
     if thorough {
         g2_lens.extend([8103, 8104]);
     }
     let plan_g2 = MsmPlan {
         curve: "bls12-381-g2",
         lengths: g2_lens,
-        pools_for: Box::new(move |n| if thorough { POOLS_ALL.to_vec() } else if n >= 1000 { vec![1, 16] } else { vec![1, 2, 3, 16] }),
-        pools_independent: vec![1, 16],
+        pools_for: Box::new(move |_| if thorough { POOLS_ALL.to_vec() } else { vec![1, 3, 16] }),
+        pools_independent_for: Box::new(|_| vec![1, 16]),
         patterns_for: Box::new(|_| None),
     };
     msm::run_curve::<G2Affine>(&mut cx, &plan_g2, &bls_g2_entries());
